@@ -17,19 +17,39 @@ must lie between the two readings.  Process 2 must log nothing before the
 marker.  Values (`eval-when-compile` -> None, `eval-and-compile` -> last form,
 `do-mac` -> value of the result code) are compared at run time in both processes.
 The byte-code path is positively detected as in C15.
+
+Staging forms are also nested in the sub-form slots of other core forms ("hosts":
+`with` with 1-3 managers incl. statement-producing manager expressions, `try` /
+`except` / `else` / `finally`, `if` / `when` / `cond`, `let`, `for` / `while`,
+`lfor` / `gfor` in both compilation strategies, `match`, `defclass` bodies,
+decorators / parameter defaults / bodies of `defn`), and hosts inside staging
+bodies: a host that compiles a slot twice breaks the "once at compile time" count.
+The reference compiles every slot exactly once and runs it as often as the host's
+documented semantics say.
+
+Second history shape (every 4th case): the module is a script run twice with the
+real `hy FILE` (logger installed through a sitecustomize.py on PYTHONPATH).
+docs/semantics.rst "When bytecode is regenerated" promises that the first direct
+execution writes byte-code and that the unchanged file is then loaded from it; so
+a second run that recompiles the script *and* re-runs compile-time code is a
+violation (a second run that recompiles without observable compile-time effects
+is merely inconclusive).
 """
 import json
 import os
 from collections import Counter
 
 from hv.common import rng_for
-from hv.proc import CaseDir, compiled_paths, python
+from hv.proc import CaseDir, compiled_paths, hy_script, python
 
 ID = "C16"
 LEVEL = "exploration"
 RULE = ("generated modules with eval-when-compile / eval-and-compile / do-mac forms at top level, in `do`, as "
         "assigned values, in list literals, inside functions called 0-3 times and inside one another (depth <= 3), "
-        "do-mac results that are themselves staging forms; imported from source then from the byte-code cache. "
+        "do-mac results that are themselves staging forms, and nested in the slots of host forms (with 1-3 managers, "
+        "try/except/else/finally, if/when/cond, let, for/while, lfor/gfor both strategies, match, defclass, defn "
+        "decorators/defaults/bodies); imported from source then from the byte-code cache, or (every 4th case) run "
+        "twice as a script with `hy FILE`. "
         "Three modules share one pair of child processes (each module is one evaluation). "
         "Non-trivial = >= 2 staging forms, at least one of them inside a function, byte-code path detected; "
         "distinct by module text.")
@@ -45,7 +65,7 @@ ASSUMPTIONS = [
     "evaluation order inside list literals is not constrained (multisets, not sequences, are compared)",
 ]
 MANIFEST = {
-    "text": "Generated modules whose eval-when-compile / eval-and-compile / do-mac bodies log (id, phase) to a scratch file through a builtins-installed logger are imported in a fresh process from source and again from the cached byte-code; the multiset of executed ids per phase (compile, run, cached run) is compared with the multiset a compositional reference computes from the IR and the call counts, and the run-time values of the forms with None / last form / value of the result code. Exploration: held on the modules run, nothing beyond.",
+    "text": "Generated modules whose eval-when-compile / eval-and-compile / do-mac bodies log (id, phase) to a scratch file through a builtins-installed logger (at top level, in functions, inside one another and inside the sub-form slots of with/try/if/cond/let/for/while/comprehensions/match/defclass/defn) are imported in a fresh process from source and again from the cached byte-code, or run twice as a script with hy FILE; the multiset of executed ids per phase (compile, run, cached run) is compared with the multiset a compositional reference computes from the IR and the call counts, and the run-time values of the forms with None / last form / value of the result code. Exploration: held on the modules run, nothing beyond.",
     "note": "Trusted: CPython pyc machinery; the 60-line reference (compile = evaluate staging bodies; evaluate = compile then run). Under eval-and-compile the compile-time count is only bounded (body compiled once or twice is unspecified). Bounds: nesting <= 3, <= 3 calls per function.",
     "technique": "runtime monitoring: builtins-installed effect logger with per-process phase, counting oracle from the IR, source run then cached run with positive byte-code-path detection",
 }
@@ -81,16 +101,96 @@ def gen_stage(rng, ctr, depth, kinds=("ewc", "eac", "dm")):
     return {"k": "dm", "body": body, "res": res, "q": rng.random() < 0.5}
 
 
+HOSTS = ["with", "with", "with", "try", "if", "when", "cond", "let", "for", "while", "lfor", "lfor",
+         "match", "defclass", "defn"]
+
+
+def gen_part(rng, ctr, depth, force_stage=False):
+    """Body of a host slot: a few nodes, usually with a staging form among them."""
+    out = []
+    if rng.random() < 0.4:
+        out.append(n_log(ctr, rng))
+    if force_stage or rng.random() < 0.6:
+        out.append(gen_stage(rng, ctr, depth))
+    if not out or rng.random() < 0.3:
+        out.append(n_log(ctr, rng))
+    return out
+
+
+def gen_host(rng, ctr, depth):
+    """A core form hosting staging forms in its sub-form slots.  Every host is
+    self-contained (refers only to names it binds itself and to builtins), so it
+    can also sit inside a staging body that is evaluated at compile time."""
+    h = rng.choice(HOSTS)
+    ctr[0] += 1
+    n = {"k": "host", "h": h, "id": ctr[0], "parts": {}}
+    d = depth + 1
+    P = n["parts"]
+    if h == "with":
+        n["n"] = rng.choice([1, 2, 2, 3, 3])
+        n["anon"] = [rng.random() < 0.4 for _ in range(n["n"])]
+        n["stmt"] = rng.randrange(n["n"]) if rng.random() < 0.5 else None   # statement-producing manager
+        if rng.random() < 0.35:
+            n["mgr_at"] = rng.randrange(n["n"])
+            P["mgr"] = gen_part(rng, ctr, d)
+        P["body"] = gen_part(rng, ctr, d, True)
+    elif h == "try":
+        n["raises"] = rng.random() < 0.4
+        P["body"] = gen_part(rng, ctr, d)
+        P["handler"] = gen_part(rng, ctr, d)
+        if rng.random() < 0.5:
+            P["else"] = gen_part(rng, ctr, d)
+        if rng.random() < 0.6:
+            P["finally"] = gen_part(rng, ctr, d)
+    elif h in ("if", "when"):
+        P["cond"] = [rng.choice([n_log(ctr, rng), {"k": "lit", "v": rng.choice([None, 1])}])]
+        if rng.random() < 0.3:
+            P["cond"] = [gen_stage(rng, ctr, d)]
+        P["then"] = gen_part(rng, ctr, d)
+        if h == "if":
+            P["else"] = gen_part(rng, ctr, d)
+    elif h == "cond":
+        P["c1"] = [rng.choice([n_log(ctr, rng), {"k": "lit", "v": rng.choice([None, 1])}])]
+        P["b1"] = gen_part(rng, ctr, d)
+        P["c2"] = [rng.choice([n_log(ctr, rng), {"k": "lit", "v": rng.choice([None, 1])}])]
+        P["b2"] = gen_part(rng, ctr, d)
+        P["b3"] = gen_part(rng, ctr, d)
+    elif h == "let":
+        P["init"] = gen_part(rng, ctr, d)
+        P["body"] = gen_part(rng, ctr, d)
+    elif h in ("for", "while"):
+        n["n"] = rng.choice([0, 1, 2, 3])
+        P["body"] = gen_part(rng, ctr, d, True)
+    elif h == "lfor":
+        n["n"] = rng.choice([0, 1, 2])
+        n["form"] = rng.choice(["lfor", "lfor-do", "gfor", "lfor-if"])
+        P["body"] = gen_part(rng, ctr, d, True)
+    elif h == "match":
+        n["subj"] = rng.choice([1, 2, 3])
+        for b in ("b1", "b2", "b3"):
+            P[b] = gen_part(rng, ctr, d)
+    elif h == "defclass":
+        P["body"] = gen_part(rng, ctr, d, True)
+    elif h == "defn":
+        n["calls"] = rng.choice([0, 1, 2])
+        P["deco"] = gen_part(rng, ctr, d)
+        P["default"] = gen_part(rng, ctr, d)
+        P["fbody"] = gen_part(rng, ctr, d)
+    return n
+
+
 def gen_body(rng, ctr, depth):
     out = []
     for _ in range(rng.randint(1, 3)):
         r = rng.random()
-        if r < 0.6 or depth >= 3:
+        if r < 0.55 or depth >= 3:
             out.append(n_log(ctr, rng))
-        elif r < 0.7:
+        elif r < 0.63:
             out.append({"k": "lit", "v": rng.randint(1, 9)})
-        elif r < 0.78:
+        elif r < 0.70:
             out.append({"k": "do", "body": gen_body(rng, ctr, depth + 1)})
+        elif r < 0.80 and depth <= 1:
+            out.append(gen_host(rng, ctr, depth + 1))
         else:
             out.append(gen_stage(rng, ctr, depth))
     return out
@@ -98,6 +198,8 @@ def gen_body(rng, ctr, depth):
 
 def gen_expr(rng, ctr, depth=0):
     r = rng.random()
+    if r < 0.4:
+        return gen_host(rng, ctr, depth)
     if r < 0.7:
         return gen_stage(rng, ctr, depth)
     if r < 0.85:
@@ -154,6 +256,8 @@ def render(n):
             else:
                 parts.append("'" + r)
         return "(do-mac " + " ".join(parts) + ")"
+    if k == "host":
+        return render_host(n)
     if k == "top":
         r = render(n["node"])
         return f"(setv {n['var']} {r})" if n["var"] else r
@@ -162,6 +266,84 @@ def render(n):
     if k == "call":
         return f"(setv {n['var']} ({n['name']}))"
     raise ValueError(k)
+
+
+def rs(nodes):
+    return " ".join(render(c) for c in nodes)
+
+
+def render_host(n):
+    h, i, P = n["h"], n["id"], n["parts"]
+    if h == "with":
+        ms = []
+        for j in range(n["n"]):
+            e = "(CM)"
+            if n.get("mgr_at") == j and "mgr" in P:
+                e = f"(do {rs(P['mgr'])} (CM))"
+            elif n.get("stmt") == j:
+                e = f"(do (setv t{i} {j}) (CM))"
+            ms.append((("_" if n["anon"][j] else f"w{i}_{j}"), e))
+        if n["n"] == 1 and n["anon"][0]:
+            mgrs = ms[0][1]
+        else:
+            mgrs = "  ".join(f"{v} {e}" for v, e in ms)
+        return f"(with [{mgrs}] {rs(P['body'])})"
+    if h == "try":
+        out = f"(try {rs(P['body'])}"
+        if n["raises"]:
+            out += ' (raise (ValueError "r"))'
+        out += f" (except [ValueError] {rs(P['handler'])})"
+        if "else" in P:
+            out += f" (else {rs(P['else'])})"
+        if "finally" in P:
+            out += f" (finally {rs(P['finally'])})"
+        return out + ")"
+    if h == "if":
+        return f"(if {rs(P['cond'])} (do {rs(P['then'])}) (do {rs(P['else'])}))"
+    if h == "when":
+        return f"(when {rs(P['cond'])} {rs(P['then'])})"
+    if h == "cond":
+        return (f"(cond {rs(P['c1'])} (do {rs(P['b1'])}) {rs(P['c2'])} (do {rs(P['b2'])}) "
+                f"True (do {rs(P['b3'])}))")
+    if h == "let":
+        return f"(let [l{i} (do {rs(P['init'])})] {rs(P['body'])})"
+    if h == "for":
+        return f"(do (for [i{i} (range {n['n']})] {rs(P['body'])}) None)"
+    if h == "while":
+        return (f"(do (setv w{i} 0) (while (< w{i} {n['n']}) {rs(P['body'])} "
+                f"(setv w{i} (+ w{i} 1))) None)")
+    if h == "lfor":
+        b = f"(do {rs(P['body'])})"
+        f = n["form"]
+        if f == "lfor":
+            return f"(lfor i{i} (range {n['n']}) {b})"
+        if f == "lfor-do":
+            return f"(lfor i{i} (range {n['n']}) :do (setv z{i} i{i}) {b})"
+        if f == "lfor-if":
+            return f"(lfor i{i} (range {n['n']}) :if True {b})"
+        return f"(list (gfor i{i} (range {n['n']}) {b}))"
+    if h == "match":
+        return (f"(match {n['subj']} 1 (do {rs(P['b1'])}) 2 (do {rs(P['b2'])}) "
+                f"_ (do {rs(P['b3'])}))")
+    if h == "defclass":
+        return f"(do (defclass K{i} [] {rs(P['body'])}) None)"
+    if h == "defn":
+        calls = " ".join(f"(g{i})" for _ in range(n["calls"]))
+        return (f"(do (defn [(do {rs(P['deco'])} IDENT)] g{i} [[x{i} (do {rs(P['default'])} 5)]] "
+                f"{rs(P['fbody'])} x{i}) {calls} None)")
+    raise ValueError(h)
+
+
+def children(n):
+    k = n["k"]
+    if k == "host":
+        return [c for part in n["parts"].values() for c in part]
+    if k == "top":
+        return [n["node"]]
+    kids = list(n.get("body", []))
+    if k == "dm" and n.get("res"):
+        kids.append(n["res"])
+    return kids
 
 
 def hv(v):
@@ -179,13 +361,8 @@ def count_stage(n, in_fn=False):
     if k in ("ewc", "eac", "dm"):
         tot += 1
         fn += in_fn
-    kids = list(n.get("body", []))
-    if k == "dm" and n.get("res"):
-        kids.append(n["res"])
-    if k == "top":
-        kids = [n["node"]]
-    for c in kids:
-        a, b = count_stage(c, in_fn or k == "defn")
+    for c in children(n):
+        a, b = count_stage(c, in_fn or k == "defn" or (k == "host" and n["h"] == "defn"))
         tot += a
         fn += b
     return tot, fn
@@ -212,6 +389,11 @@ def comp(n, twice, funcs, env):
                 vals.append(v)
             return ev, (vals if k == "vec" else (vals[-1] if vals else None))
         return cev, prog
+    if k == "host":
+        parts = {name: comp({"k": "do", "body": nodes}, twice, funcs, env)
+                 for name, nodes in n["parts"].items()}
+        cev = sum((p[0] for p in parts.values()), Counter())   # every slot is compiled exactly once
+        return cev, (lambda: run_host(n, {name: p[1] for name, p in parts.items()}))
     body = {"k": "do", "body": n.get("body", [])}
     if k == "ewc":
         c, p = comp(body, twice, funcs, env)
@@ -252,6 +434,62 @@ def comp(n, twice, funcs, env):
     raise ValueError(k)
 
 
+def run_host(n, P):
+    """Run-time meaning of a host: which slots run how often, and its value."""
+    h = n["h"]
+    ev = Counter()
+
+    def run(name):
+        nonlocal ev
+        e, v = P[name]()
+        ev += e
+        return v
+    val = None
+    if h == "with":
+        if "mgr" in P:
+            run("mgr")
+        val = run("body")
+    elif h == "try":
+        val = run("body")
+        if n["raises"]:
+            val = run("handler")
+        elif "else" in P:
+            val = run("else")
+        if "finally" in P:
+            run("finally")
+    elif h == "if":
+        val = run("then") if run("cond") else run("else")
+    elif h == "when":
+        val = run("then") if run("cond") else None
+    elif h == "cond":
+        if run("c1"):
+            val = run("b1")
+        elif run("c2"):
+            val = run("b2")
+        else:
+            val = run("b3")
+    elif h == "let":
+        run("init")
+        val = run("body")
+    elif h in ("for", "while"):
+        for _ in range(n["n"]):
+            run("body")
+    elif h == "lfor":
+        val = [run("body") for _ in range(n["n"])]
+    elif h == "match":
+        val = run("b%d" % n["subj"])
+    elif h == "defclass":
+        run("body")
+    elif h == "defn":
+        run("deco")
+        run("default")
+        for _ in range(n["calls"]):
+            run("fbody")
+    else:
+        raise ValueError(h)
+    return ev, val
+
+
 def reference(top, twice):
     funcs, env = {}, {}
     c, p = comp({"k": "do", "body": top}, twice, funcs, env)
@@ -266,10 +504,14 @@ MODNAMES = ["stg_mod", "stage_m2", "m"]
 
 
 def cases(seed, tier, shard, nshards):
-    i = 0
+    i = k = 0
     while True:
+        k += 1
+        # every 4th case is a script run twice with `hy FILE` (one module); the others are
+        # BATCH modules imported from source and then from the cache
+        want = 1 if k % 4 == 2 else BATCH
         mods = []
-        while len(mods) < BATCH:
+        while len(mods) < want:
             rng = rng_for(seed, ID, shard, i)
             i += 1
             j = len(mods)
@@ -280,22 +522,40 @@ def cases(seed, tier, shard, nshards):
                 continue
             mods.append({"ir": top, "text": render_module(top, j * 1000), "nstage": tot, "infn": infn,
                          "modname": MODNAMES[j], "mark": j * 1000})
-        yield {"mods": mods}
+        yield {"mods": mods, "mode": "file" if want == 1 else "import"}
 
 
 def case_key(case):
-    return [m["text"] for m in case["mods"]]
+    return [case.get("mode", "import")] + [m["text"] for m in case["mods"]]
 
+
+# Installed in every child through a sitecustomize.py placed first on PYTHONPATH, so that it is
+# also there when the real `hy` script runs a file.
+HARNESS = r"""
+import builtins, json, os
+_LOG = os.environ.get("VERIF_STAGE_LOG")
+if _LOG:
+    _PHASE = os.environ["VERIF_STAGE_PHASE"]
+    def STAGE(i, v=None):
+        with open(_LOG, "a") as f:
+            f.write("%s %s\n" % (_PHASE, i))
+        return v
+    class CM:
+        def __enter__(self):
+            return self
+        def __exit__(self, *exc):
+            return False
+    def IDENT(x):
+        return x
+    def DUMPVALS(g):
+        vals = {k: v for k, v in g.items() if k[0] in "rc" and k[1:].isdigit()}
+        with open(os.environ["VERIF_STAGE_VALS"], "a") as f:
+            f.write(json.dumps({"phase": _PHASE, "values": vals}, default=repr) + "\n")
+    builtins.STAGE, builtins.CM, builtins.IDENT, builtins.DUMPVALS = STAGE, CM, IDENT, DUMPVALS
+"""
 
 DRIVER = r"""
-import builtins, json, os, sys
-LOG = os.environ["VERIF_STAGE_LOG"]
-PHASE = os.environ["VERIF_STAGE_PHASE"]
-def STAGE(i, v=None):
-    with open(LOG, "a") as f:
-        f.write("%s %s\n" % (PHASE, i))
-    return v
-builtins.STAGE = STAGE
+import json, os, sys
 sys.path.insert(0, sys.argv[1])
 outs = {}
 import importlib
@@ -339,14 +599,19 @@ def classes_of(mod):
             kinds.add(k)
             if under:
                 kinds.add(f"{k}-in-{under}")
-        kids = list(n.get("body", []))
-        if k == "dm" and n.get("res"):
-            if n["res"]["k"] in ("ewc", "eac", "dm"):
-                kinds.add("dm-result-is-staging")
-            kids.append(n["res"])
-        if k == "top":
-            kids = [n["node"]]
-        for c in kids:
+        if k == "dm" and n.get("res") and n["res"]["k"] in ("ewc", "eac", "dm"):
+            kinds.add("dm-result-is-staging")
+        if k == "host":
+            kinds.add("host:" + n["h"])
+            if n["h"] == "with":
+                kinds.add("with-managers:%d" % n["n"])
+            if under in ("ewc", "eac", "dm"):
+                kinds.add("host-in-" + under)
+            for name, part in n["parts"].items():
+                for c in part:
+                    walk(c, f"{n['h']}.{name}")
+            return
+        for c in children(n):
             walk(c, k if k in ("ewc", "eac", "dm", "defn") else under)
     for t in top:
         walk(t, None)
@@ -358,7 +623,7 @@ def classes_of(mod):
     return classes
 
 
-def judge(mod, path, events, dumps, comp):
+def judge(mod, path, events, dumps, comp, file_mode=False):
     """One module of the batch -> (ok True/False/None, why, extra class)."""
     top, mark, text = mod["ir"], mod["mark"], mod["text"]
     hi_c, run_e, env_hi = reference(top, True)
@@ -370,7 +635,19 @@ def judge(mod, path, events, dumps, comp):
     if not d1["ok"]:
         return False, (f"importing the module from source failed: {d1['error']}\n"
                        f"{d1.get('tb', '')[-600:]}\n{text}"), None
-    if path not in comp[0] or path in comp[1]:
+    if path not in comp[0]:
+        return None, f"compiled p1={comp[0]} p2={comp[1]}", "inconclusive:bytecode-path-not-detected"
+    if path in comp[1]:
+        before = [i for i in events["p2"] if mark < i < mark + 1000]
+        if mark in events["p2"]:
+            before = [i for i in events["p2"][:events["p2"].index(mark)] if mark < i < mark + 1000]
+        if file_mode and before:
+            # docs/semantics.rst "When bytecode is regenerated": the first direct execution of a
+            # file produces a bytecode file; "subsequently, if the source file hasn't changed, Hy
+            # will load the bytecode instead of recompiling"
+            return False, (f"second `hy FILE` run of the unchanged script recompiled it (Compiling {path}) "
+                           f"and ran compile-time code again: {fmt(Counter(before))}; byte-code writing was "
+                           f"enabled and the first run compiled it\n{text}"), "script-not-cached"
         return None, f"compiled p1={comp[0]} p2={comp[1]}", "inconclusive:bytecode-path-not-detected"
     if not d2["ok"]:
         return False, f"import from cached byte-code failed: {d2['error']}\n{text}", "bytecode-path-detected"
@@ -414,33 +691,58 @@ def judge(mod, path, events, dumps, comp):
 
 def run_case(case):
     mods = case["mods"]
-    res = {"ok": True, "nontrivial": False, "classes": [], "events": 0, "n": 0, "nt_keys": [],
-           "sample": {"text": mods[0]["text"]}}
+    file_mode = case.get("mode") == "file"
+    res = {"ok": True, "nontrivial": False, "classes": ["mode:" + case.get("mode", "import")],
+           "events": 0, "n": 0, "nt_keys": [], "sample": {"text": mods[0]["text"]}}
     with CaseDir("c16") as cd:
         src = os.path.join(cd.path, "src")
-        paths = [cd.write(os.path.join("src", m["modname"] + ".hy"), m["text"]) for m in mods]
+        tail = "(DUMPVALS (globals))\n" if file_mode else ""
+        paths = [cd.write(os.path.join("src", m["modname"] + ".hy"), m["text"] + tail) for m in mods]
+        site = os.path.dirname(cd.write(os.path.join("site", "sitecustomize.py"), HARNESS))
         drv = cd.write("_drv.py", DRIVER)
         log = os.path.join(cd.path, "stage.log")
+        vals = os.path.join(cd.path, "vals.jsonl")
         runs = []
         for phase in ("p1", "p2"):
-            env = cd.env({"VERIF_STAGE_LOG": log, "VERIF_STAGE_PHASE": phase})
-            r = cd.run([python(), drv, src] + [m["modname"] for m in mods], env=env, timeout=60)
+            env = cd.env({"VERIF_STAGE_LOG": log, "VERIF_STAGE_PHASE": phase, "VERIF_STAGE_VALS": vals},
+                         pythonpath_first=[site])
+            if file_mode:
+                cmd = [hy_script(), paths[0]]
+            else:
+                cmd = [python(), drv, src] + [m["modname"] for m in mods]
+            r = cd.run(cmd, env=env, timeout=60)
             if r["rc"] is None:
-                res.update(ok=None, classes=["inconclusive:child-timeout"])
+                res.update(ok=None, classes=res["classes"] + ["inconclusive:child-timeout"])
                 return res
             runs.append(r)
-        try:
-            with open(log) as f:
-                lines = f.read().split("\n")
-        except FileNotFoundError:
-            lines = []
+        lines, vlines = [], []
+        for pth, dst in ((log, lines), (vals, vlines)):
+            try:
+                with open(pth) as f:
+                    dst.extend(f.read().split("\n"))
+            except FileNotFoundError:
+                pass
     events = {"p1": [], "p2": []}
     for ln in lines:
         if ln:
             ph, i = ln.split(" ", 1)
             events[ph].append(int(i))
     res["events"] = len(events["p1"]) + len(events["p2"])
-    dumps = [parse_dump(r["out"]) for r in runs]
+    if file_mode:
+        got = {}
+        for ln in vlines:
+            if ln:
+                d = json.loads(ln)
+                got[d["phase"]] = d["values"]
+        dumps = []
+        for ph, r in zip(("p1", "p2"), runs):
+            if r["rc"] == 0 and ph in got:
+                dumps.append({mods[0]["modname"]: {"ok": True, "values": got[ph]}})
+            else:
+                dumps.append({mods[0]["modname"]: {
+                    "ok": False, "error": [f"hy FILE exit status {r['rc']}", r["err"][-500:]]}})
+    else:
+        dumps = [parse_dump(r["out"]) for r in runs]
     if any(d is None for d in dumps):
         k = [d is None for d in dumps].index(True)
         res.update(ok=False, n=1, why=f"process {k + 1} produced no dump: rc={runs[k]['rc']} "
@@ -449,13 +751,15 @@ def run_case(case):
     comp = [compiled_paths(r["err"]) for r in runs]
     whys = []
     for m, path in zip(mods, paths):
-        ok, why, tag = judge(m, path, events, dumps, comp)
+        ok, why, tag = judge(m, path, events, dumps, comp, file_mode)
         res["classes"] += classes_of(m) + ([tag] if tag else [])
         if ok is None:
             continue
         res["n"] += 1
-        if tag == "bytecode-path-detected" and m["nstage"] >= 2 and m["infn"] >= 1:
-            res["nt_keys"].append(m["text"])
+        if tag == "bytecode-path-detected":
+            res["classes"].append("bytecode-path-detected:" + case.get("mode", "import"))
+        if tag in ("bytecode-path-detected", "script-not-cached") and m["nstage"] >= 2 and m["infn"] >= 1:
+            res["nt_keys"].append([case.get("mode", "import"), m["text"]])
         if ok is False:
             whys.append(why)
     if res["n"] == 0:
@@ -468,8 +772,10 @@ def run_case(case):
 
 
 def gate(tot, classes, extra, tier):
-    if not classes.get("bytecode-path-detected"):
+    if not classes.get("bytecode-path-detected:import"):
         return "bytecode-path-never-detected"
+    if not classes.get("bytecode-path-detected:file") and not classes.get("script-not-cached"):
+        return "cached-hy-FILE-run-never-detected"
     n = sum(v for k, v in classes.items() if k.startswith("n") and k[1:].isdigit())
     if classes.get("inconclusive:bytecode-path-not-detected", 0) > 0.2 * max(n, 1):
         return "bytecode-path-not-detected-in-%d-modules" % classes["inconclusive:bytecode-path-not-detected"]
